@@ -33,11 +33,10 @@ class InterpND:
     def build_coeffs(self):
         self.coeffs = np.zeros((2**self.n_dim, self.n_dim, 2))
         a = [[0, 1]] * self.n_dim
-        for i in product(*a):
-            idx = 0
+        # corners are numbered as in intgral_step: itertools.product order
+        for idx, i in enumerate(product(*a)):
             tmp = np.zeros((self.n_dim, 2))
             for j, idx_i in enumerate(i):
-                idx = idx + idx_i * 2**j
                 if idx_i == 0:
                     tmp[j] = [1, -1]
                 else:
